@@ -38,8 +38,8 @@ def res_desc(g, in_dim):
     return d
 
 
-def gen_fit_case(g):
-    topo = g.choice(["chain", "chain", "deep", "deep3", "parallel", "shortcut", "esn", "esn", "chain_fb", "deep_fb",
+def gen_fit_case(g, force=None):
+    topo = "deep" if force == "grown" else g.choice(["chain", "chain", "deep", "deep3", "parallel", "shortcut", "esn", "esn", "chain_fb", "deep_fb",
                      "dag", "dag", "dag"])
     d_in = g.randint(1, 3)
     inp = {"kind": "input", "in_dim": d_in, "out_dim": d_in, "ext_dim": d_in}
@@ -93,7 +93,7 @@ def gen_fit_case(g):
         r = res_desc(g, d_in)
         descs += [r, ridge_desc(g, r["out_dim"] + d_in, g.randint(1, 2))]
         edges = [(0, 1), (1, 2), (0, 2)]
-    nseq = g.randint(1, 3)
+    nseq = 1 if force == "grown" else g.randint(1, 3)
     lens = [g.randint(3, 8) for _ in range(nseq)]
     c = {"kind": "fit", "topo": topo, "descs": descs, "edges": edges, "fb": {str(k): v for k, v in fb.items()},
          "lens": lens, "warmup": g.randint(0, min(2, min(lens) - 1)), "seed": g.randint(0, 10 ** 9),
@@ -106,7 +106,14 @@ def gen_fit_case(g):
         c["warmup"] = min(c["warmup"], lens[0] - 1)
     if topo != "esn" and not c["refit"] and not c["failed_between"] and not fb and g.chance(0.3):
         c["stateful"] = False
-    if (c["refit"] or c["failed_between"] or c.get("stateful") is False) and topo != "esn":
+    if topo == "deep" and nseq == 1 and (force == "grown" or g.chance(0.35)):
+        # the model is first built and fitted WITHOUT its second half, then extended in place (m &= o1 >> r2 >> o2) and
+        # fitted again: the second fit must stage the graph the model has now
+        c["grown"] = True
+        c["refit"], c["failed_between"] = False, None
+        c.pop("stateful", None)
+        c["targets_as"] = "mapping"
+    if (c["refit"] or c["failed_between"] or c.get("stateful") is False or c.get("grown")) and topo != "esn":
         # an earlier fit leaves the external equation's internal_state behind, which no reset clears (finding K4 of
         # C08): histories are generated for the internal equation only
         for d in descs:
@@ -308,6 +315,13 @@ def check_fit(ctx, c):
                 c0 = dict(c, seed=c["seed"] + 17)
                 X0, Y0 = fit_data(c0, descs[0]["in_dim"], ridge_dims)
                 esn.fit(pack(X0, c["container"]), pack(Y0[ridge_idx[0]], c["container"]), warmup=c["warmup"])
+                # ... and the fitted node has been USED since (stepped by calls: its reservoir and readout hold non-null
+                # states when the next fit starts; every training sequence nevertheless starts from null states, the
+                # feedback heard at its first step included)
+                # (internal equation only: the external equation's internal_state survives every reset - finding K4 of C08)
+                if descs[1].get("eq") == "internal":
+                    for t in range(min(3, len(X0[0]))):
+                        esn(np.array(X0[0][t], dtype=float).reshape(1, -1))
             if c.get("failed_between"):
                 # ... nor a fit that FAILED (while accumulating: a sequence too short for the warm-up; or in the final
                 # solve: a NaN target), with or without a completed fit before it
@@ -369,7 +383,17 @@ def check_fit(ctx, c):
                     except Exception:  # noqa
                         pass
                 kw["reset"] = True
-            b.model.fit(Xarg, Yarg, warmup=c["warmup"], **kw)
+            if c.get("grown"):
+                from reservoirpy.model import Model
+                nd = b.nodes
+                c0 = dict(c, seed=c["seed"] + 17)
+                X0, Y0 = fit_data(c0, descs[0]["in_dim"], ridge_dims)
+                part = Model(nodes=nd[:3], edges=[(nd[0], nd[1]), (nd[1], nd[2])])
+                part.fit(pack(X0, c["container"]), {nd[2].name: pack(Y0[2], c["container"])}, warmup=c["warmup"])
+                part &= (nd[2] >> nd[3] >> nd[4])
+                part.fit(Xarg, Yarg, warmup=c["warmup"], reset=True)
+            else:
+                b.model.fit(Xarg, Yarg, warmup=c["warmup"], **kw)
             readouts = {i: b.nodes[i] for i in ridge_idx}
     except Exception as e:  # noqa
         report_fit_failure(ctx, c, parents0, f"fit raised {type(e).__name__}: {e} on a valid dataset", obligation=ob)
@@ -406,6 +430,8 @@ def check_fit(ctx, c):
     if mo[0] != "ok":
         raise common.FrameworkError("model rejected a C06 fit case: " + mo[1])
     ctx.count(c, nontrivial=len(ridge_idx) >= 1 and sum(c["lens"]) - c["warmup"] * len(c["lens"]) >= 2, obligation=ob)
+    if c.get("grown"):
+        ctx.stat("fit of a model grown in place after an earlier fit")
     ctx.stat(f"force_teachers={c.get('force_teachers', True)} refit={bool(c.get('refit'))} failed_between={c.get('failed_between')} stateful={c.get('stateful', True)}")
     ctx.stat(f"fit topo={c['topo']} nseq={len(c['lens'])} warmup={c['warmup']} targets={c['targets_as']} container={c['container']} fb={bool(c['fb'])}")
     ctx.sample({k: c[k] for k in ("topo", "lens", "warmup", "container", "targets_as", "fb")})
@@ -666,6 +692,8 @@ def run(ctx):
     esn_raw_inputs_witness(ctx)
     for _ in range(ctx.n(90, 1200)):
         check_case(ctx, gen_fit_case(g))
+    for _ in range(ctx.n(8, 80)):
+        check_case(ctx, gen_fit_case(g, force="grown"))
     for _ in range(ctx.n(70, 900)):
         check_case(ctx, gen_train_case(g))
     for _ in range(ctx.n(150, 2500)):
